@@ -339,7 +339,9 @@ func TestC03(t *testing.T) {
 		st.Class("unterminated_tail")
 		// (iv) a word with a malformed expansion: the length form takes no operator
 		if lastTop.Kind != gen.KOp {
-			bad := rapid.SampledFrom([]string{"${#x:-y}", "${#x%y}", "${#x=y}", "${#x+y}", "${#x?}", "${#1-}", `"${#x:-y}"`, "a${#x#y}b", "${#x:=}", "${#foo##*}"}).Draw(rt, "badword")
+			bad := rapid.SampledFrom([]string{"${#x:-y}", "${#x%y}", "${#x=y}", "${#x+y}", "${#x?}", "${#1-}", `"${#x:-y}"`, "a${#x#y}b", "${#x:=}", "${#foo##*}",
+				// a backquote is not the ")" of a case pattern, of "f()" or of a subshell
+				"`case x in a` b;; esac`", "`f(` { a; }`", "`(a` b", "x`case y in (a|b` c;; esac`"}).Draw(rt, "badword")
 			src := base + " " + bad + "\n"
 			starts := append([]int{}, r.Starts...)
 			for o := len(base) + 1; o < len(src); o++ {
